@@ -777,3 +777,337 @@ Theorem C01_ex6_by_theorem :
 Proof. exact (@ex6_by_theorem). Qed.
 Print Assumptions C01_ex6_by_theorem.
 
+Require Import WnV.Proofs.Compose3.
+
+(* ==== composition, third part.  ILI and lexfile unconditionally (given the "presupposed" status row every initialised database has: needed, witness); Synset.words()/lemmas() in member order; relations through the API, one type at a time: get_related lists the targets of the document's relations of that type in document order, each once (exactly the document's list when it repeats no (type, target) pair); examples an extension attaches to a base sense/synset follow the base's own *)
+Theorem C01_ili_present :
+  forall (nt : A.normtable) (L : val) (d d' : Rel.db) (ss : val),
+         A.add_one_lexicon nt L d = R.Ok d' ->
+         has_presupposed d = true ->
+         In ss (A._local_synsets (A._synsets L)) ->
+         textual (AC.ilic_of ss) = true -> found (AC.ili_pred (AC.ilic_of ss)) d' "ilis".
+Proof. exact (@ili_present). Qed.
+Print Assumptions C01_ili_present.
+
+Theorem C01_lexfile_present :
+  forall (nt : A.normtable) (L : val) (d d' : Rel.db) (ss : val) (t : str),
+         A.add_one_lexicon nt L d = R.Ok d' ->
+         lexfiles_strings L = true ->
+         In ss (A._local_synsets (A._synsets L)) ->
+         A.vgetk ss "lexfile" = VStr t -> t <> [] -> found (name_pred t) d' "lexfiles".
+Proof. exact (@lexfile_present). Qed.
+Print Assumptions C01_lexfile_present.
+
+Theorem C01_K5c_synsets_exact :
+  forall (d : Rel.db) (r : val) (nt : A.normtable) (d' : Rel.db) (L : val) (w : Wordnet),
+         A.add_lexical_resource d r nt = R.Ok d' ->
+         A.vreq r "lexicons" = R.Ok (VList [L]) ->
+         new_lexicon d L = true ->
+         wf_db d = true ->
+         wf_lex L = true ->
+         wn_lexicon_ids w = [R.next_rowid (R.get_table d "lexicons")] ->
+         wn_default_mode w = false ->
+         wf_db5 d = true ->
+         wf_lex5 L = true ->
+         rowids_okb "ilis" d = true ->
+         rowids_okb "lexfiles" d = true ->
+         has_presupposed d = true ->
+         lexfiles_strings L = true ->
+         Forall2 (synset_report_exact (conv d')) (Wordnet_synsets (conv d') w None None None)
+           (A._local_synsets (A._synsets L)).
+Proof. exact (@K5c_synsets_exact). Qed.
+Print Assumptions C01_K5c_synsets_exact.
+
+Theorem C01_presupposed_status_needed :
+  let d1 :=
+           match A.add_lexical_resource AP.ex_db ex7_r [] with
+           | Rel.Ok d0 => d0
+           | _ => []
+           end in
+         A.add_lexical_resource AP.ex_db ex7_r [] = R.Ok d1 /\
+         has_presupposed AP.ex_db = false /\
+         map (fun y : Synset => (ss_id y, ss_ili y)) (Wordnet_synsets (conv d1) ex7_w None None None) =
+         [(S_ "y1", None); (S_ "y2", Some (S_ "i1")); (S_ "y3", None)].
+Proof. exact (@presupposed_status_needed). Qed.
+Print Assumptions C01_presupposed_status_needed.
+
+Theorem C01_Sense_word_exact :
+  forall (nt : A.normtable) (L : val) (d d' : R.db),
+         A.add_one_lexicon nt L d = R.Ok d' ->
+         vtruthy (A.vgetk L "extends") = false ->
+         wf_db d = true ->
+         wf_lex_facts L ->
+         forall w : Wordnet,
+         wn_lexicon_ids w = [R.next_rowid (R.get_table d "lexicons")] ->
+         wn_default_mode w = false ->
+         forall (kx : Z * (Z * val * (Z * val))) (it : item),
+         In kx
+           (A.enumerate_from (R.next_rowid (R.get_table d "senses"))
+              (sense_items_from (R.next_rowid (R.get_table d "entries"))
+                 (A._local_entries (A._entries L)))) ->
+         In it
+           (mk_items nt d d' (R.next_rowid (R.get_table d "forms"))
+              (A.enumerate_from (R.next_rowid (R.get_table d "entries"))
+                 (A._local_entries (A._entries L)))) ->
+         fst it = mkE d (fst (snd kx)) ->
+         Sense_word (conv d') (mk_Sense w (qOf d kx)) = Ok (mk_Word w (word_of_item it)).
+Proof. exact (@Sense_word_exact). Qed.
+Print Assumptions C01_Sense_word_exact.
+
+Theorem C01_P2_synset_words_lemmas :
+  forall (d : Rel.db) (r : val) (nt : A.normtable) (d' : Rel.db) (L : val) (w : Wordnet),
+         A.add_lexical_resource d r nt = R.Ok d' ->
+         A.vreq r "lexicons" = R.Ok (VList [L]) ->
+         new_lexicon d L = true ->
+         wf_db d = true ->
+         wf_lex L = true ->
+         wn_lexicon_ids w = [R.next_rowid (R.get_table d "lexicons")] ->
+         wn_default_mode w = false ->
+         Forall2
+           (fun (y : Synset) (ss : val) =>
+            exists (ws : list Word) (fs : list Form),
+              Synset_words (conv d') y = Ok ws /\
+              Synset_lemmas (conv d') y = Ok fs /\
+              Forall2
+                (fun (x : Word) (es : val * val) =>
+                 wd_id x = sid (fst es) /\ In x (Wordnet_words (conv d') w None None)) ws
+                (doc_members L ss) /\
+              map fo_form fs =
+              map (fun es : val * val => written (A.vgetk (fst es) "lemma")) (doc_members L ss))
+           (Wordnet_synsets (conv d') w None None None) (A._local_synsets (A._synsets L)).
+Proof. exact (@P2_synset_words_lemmas). Qed.
+Print Assumptions C01_P2_synset_words_lemmas.
+
+Theorem C01_P3_synset_relations :
+  forall (d : Rel.db) (r : val) (nt : A.normtable) (d' : Rel.db) (L : val)
+           (w : Wordnet) (rel : str),
+         A.add_lexical_resource d r nt = R.Ok d' ->
+         A.vreq r "lexicons" = R.Ok (VList [L]) ->
+         new_lexicon d L = true ->
+         wf_db d = true ->
+         wf_lex L = true ->
+         wn_lexicon_ids w = [R.next_rowid (R.get_table d "lexicons")] ->
+         wn_default_mode w = false ->
+         wn_expanded_ids w = [] ->
+         wf_db6 d = true ->
+         wf_rel L = true ->
+         reltypes_strings L = true ->
+         rowids_okb "relation_types" d = true ->
+         rel <> c_star_s ->
+         Forall2
+           (fun (y : Synset) (ss : val) =>
+            exists ts : list Synset,
+              Synset_get_related (conv d') y [rel] = Ok ts /\
+              map ss_id ts = dedup str_eqb (doc_targets ss rel) /\
+              (NoDup (doc_targets ss rel) -> map ss_id ts = doc_targets ss rel) /\
+              (forall t : Synset, In t ts -> In t (Wordnet_synsets (conv d') w None None None)))
+           (Wordnet_synsets (conv d') w None None None) (A._local_synsets (A._synsets L)).
+Proof. exact (@P3_synset_relations). Qed.
+Print Assumptions C01_P3_synset_relations.
+
+Theorem C01_P3_sense_relations :
+  forall (d : Rel.db) (r : val) (nt : A.normtable) (d' : Rel.db) (L : val)
+           (w : Wordnet) (rel : str),
+         A.add_lexical_resource d r nt = R.Ok d' ->
+         A.vreq r "lexicons" = R.Ok (VList [L]) ->
+         new_lexicon d L = true ->
+         wf_db d = true ->
+         wf_lex L = true ->
+         wf_lex5 L = true ->
+         wn_lexicon_ids w = [R.next_rowid (R.get_table d "lexicons")] ->
+         wn_default_mode w = false ->
+         wf_db7 d = true ->
+         wf_srel L = true ->
+         reltypes_strings L = true ->
+         rowids_okb "relation_types" d = true ->
+         rel <> c_star_s ->
+         Forall2
+           (fun (sn : Sense) (es : val * val) =>
+            exists ts : list Sense,
+              Sense_get_related (conv d') sn [rel] = Ok ts /\
+              map sn_id ts = dedup str_eqb (doc_sense_targets L (snd es) rel) /\
+              (NoDup (doc_sense_targets L (snd es) rel) ->
+               map sn_id ts = doc_sense_targets L (snd es) rel) /\
+              (forall t : Sense, In t ts -> In t (Wordnet_senses (conv d') w None None)))
+           (Wordnet_senses (conv d') w None None) (doc_senses L).
+Proof. exact (@P3_sense_relations). Qed.
+Print Assumptions C01_P3_sense_relations.
+
+Theorem C01_P3_sense_synset_relations :
+  forall (d : Rel.db) (r : val) (nt : A.normtable) (d' : Rel.db) (L : val)
+           (w : Wordnet) (rel : str),
+         A.add_lexical_resource d r nt = R.Ok d' ->
+         A.vreq r "lexicons" = R.Ok (VList [L]) ->
+         new_lexicon d L = true ->
+         wf_db d = true ->
+         wf_lex L = true ->
+         wf_lex5 L = true ->
+         wn_lexicon_ids w = [R.next_rowid (R.get_table d "lexicons")] ->
+         wn_default_mode w = false ->
+         wf_db8 d = true ->
+         wf_srel L = true ->
+         wf_ssrel L = true ->
+         reltypes_strings L = true ->
+         rowids_okb "relation_types" d = true ->
+         rel <> c_star_s ->
+         Forall2
+           (fun (sn : Sense) (es : val * val) =>
+            exists ts : list Synset,
+              Sense_get_related_synsets (conv d') sn [rel] = Ok ts /\
+              map ss_id ts = dedup str_eqb (doc_synset_targets L (snd es) rel) /\
+              (NoDup (doc_synset_targets L (snd es) rel) ->
+               map ss_id ts = doc_synset_targets L (snd es) rel) /\
+              (forall t : Synset, In t ts -> In t (Wordnet_synsets (conv d') w None None None)))
+           (Wordnet_senses (conv d') w None None) (doc_senses L).
+Proof. exact (@P3_sense_synset_relations). Qed.
+Print Assumptions C01_P3_sense_synset_relations.
+
+Theorem C01_P4_sense_examples :
+  forall (nt : A.normtable) (L : val) (d d' : Rel.db) (bid bver : str)
+           (bx : Z) (e s_ext : val) (sid0 : str) (k0 : Z) (w : Wordnet) (sn0 : Sense),
+         A.add_one_lexicon nt L d = R.Ok d' ->
+         vtruthy (A.vgetk L "extends") = true ->
+         A.vgetk (A.vgetk L "extends") "id" = VStr bid ->
+         A.vgetk (A.vgetk L "extends") "version" = VStr bver ->
+         A.LEXICON_QUERY d (R.CText bid) (R.CText bver) = R.CInt bx ->
+         rowids_ok "senses" d ->
+         wf_all_senses L = true ->
+         In e (A._entries L) ->
+         In s_ext (A._senses e) ->
+         A._is_external s_ext = true ->
+         A.vgetk s_ext "id" = VStr sid0 ->
+         A.SENSE_QUERY d (R.CText sid0) (R.CInt bx) = R.CInt k0 ->
+         1 <= k0 ->
+         wn_default_mode w = false ->
+         In (R.next_rowid (R.get_table d "lexicons")) (wn_lexicon_ids w) ->
+         sn__id sn0 = k0 ->
+         sn_wordnet sn0 = w ->
+         Sense_examples (conv d') sn0 =
+         Ok
+           (map ex_example
+              (filter
+                 (fun r : example_row =>
+                  (ex_owner_rowid r =? k0)%Z && z_in (ex_lexicon_rowid r) (wn_lexicon_ids w))
+                 (t_sense_examples (conv d))) ++
+            map (fun ex : val => doc_otext (A.vgetk ex "text")) (A.vlistk s_ext "examples"))%list.
+Proof. exact (@P4_sense_examples). Qed.
+Print Assumptions C01_P4_sense_examples.
+
+Theorem C01_P4_synset_examples :
+  forall (nt : A.normtable) (L : val) (d d' : Rel.db) (bid bver : str)
+           (bx : Z) (s_ext : val) (sid0 : str) (k0 : Z) (w : Wordnet) (y0 : Synset),
+         A.add_one_lexicon nt L d = R.Ok d' ->
+         vtruthy (A.vgetk L "extends") = true ->
+         A.vgetk (A.vgetk L "extends") "id" = VStr bid ->
+         A.vgetk (A.vgetk L "extends") "version" = VStr bver ->
+         A.LEXICON_QUERY d (R.CText bid) (R.CText bver) = R.CInt bx ->
+         rowids_ok "synsets" d ->
+         wf_all_synsets L = true ->
+         In s_ext (A._synsets L) ->
+         A._is_external s_ext = true ->
+         A.vgetk s_ext "id" = VStr sid0 ->
+         A.SYNSET_QUERY d (R.CText sid0) (R.CInt bx) = R.CInt k0 ->
+         1 <= k0 ->
+         wn_default_mode w = false ->
+         In (R.next_rowid (R.get_table d "lexicons")) (wn_lexicon_ids w) ->
+         ss__id y0 = k0 ->
+         ss_wordnet y0 = w ->
+         Synset_examples (conv d') y0 =
+         Ok
+           (map ex_example
+              (filter
+                 (fun r : example_row =>
+                  (ex_owner_rowid r =? k0)%Z && z_in (ex_lexicon_rowid r) (wn_lexicon_ids w))
+                 (t_synset_examples (conv d))) ++
+            map (fun ex : val => doc_otext (A.vgetk ex "text")) (A.vlistk s_ext "examples"))%list.
+Proof. exact (@P4_synset_examples). Qed.
+Print Assumptions C01_P4_synset_examples.
+
+Theorem C01_ex7_hypotheses :
+  A.add_lexical_resource ex7_db ex7_r [] = R.Ok ex7_d' /\
+         A.vreq ex7_r "lexicons" = R.Ok (VList [ex7_L]) /\
+         new_lexicon ex7_db ex7_L = true /\
+         wf_db ex7_db = true /\
+         wf_lex ex7_L = true /\
+         wf_db5 ex7_db = true /\
+         wf_lex5 ex7_L = true /\
+         rowids_okb "ilis" ex7_db = true /\
+         rowids_okb "lexfiles" ex7_db = true /\
+         has_presupposed ex7_db = true /\
+         lexfiles_strings ex7_L = true /\
+         wf_db6 ex7_db = true /\
+         wf_rel ex7_L = true /\
+         reltypes_strings ex7_L = true /\
+         rowids_okb "relation_types" ex7_db = true /\
+         wn_lexicon_ids ex7_w = [R.next_rowid (R.get_table ex7_db "lexicons")] /\
+         wn_default_mode ex7_w = false /\ wn_expanded_ids ex7_w = [].
+Proof. exact (@ex7_hypotheses). Qed.
+Print Assumptions C01_ex7_hypotheses.
+
+Theorem C01_ex7_by_theorems :
+  let T := conv ex7_d' in
+         Forall2 (synset_report_exact T) (Wordnet_synsets T ex7_w None None None)
+           (A._local_synsets (A._synsets ex7_L)) /\
+         Forall2
+           (fun (y : Synset) (ss : val) =>
+            exists ts : list Synset,
+              Synset_get_related T y [S_ "hypernym"] = Ok ts /\
+              map ss_id ts = dedup str_eqb (doc_targets ss (S_ "hypernym")))
+           (Wordnet_synsets T ex7_w None None None) (A._local_synsets (A._synsets ex7_L)) /\
+         map
+           (fun ss : val =>
+            (doc_targets ss (S_ "hypernym"), dedup str_eqb (doc_targets ss (S_ "hypernym"))))
+           (A._local_synsets (A._synsets ex7_L)) =
+         [([S_ "y2"; S_ "y3"; S_ "y2"], [S_ "y2"; S_ "y3"]); ([], []); ([], [])].
+Proof. exact (@ex7_by_theorems). Qed.
+Print Assumptions C01_ex7_by_theorems.
+
+Theorem C01_ex8_hypotheses :
+  A.add_lexical_resource ex_d ex8_r [] = R.Ok ex8_d' /\
+         A.vreq ex8_r "lexicons" = R.Ok (VList [ex8_L]) /\
+         new_lexicon ex_d ex8_L = true /\
+         wf_db ex_d = true /\
+         wf_lex ex8_L = true /\
+         wf_lex5 ex8_L = true /\
+         wf_db7 ex_d = true /\
+         wf_db8 ex_d = true /\
+         wf_srel ex8_L = true /\
+         wf_ssrel ex8_L = true /\
+         reltypes_strings ex8_L = true /\
+         rowids_okb "relation_types" ex_d = true /\
+         wn_lexicon_ids ex8_w = [R.next_rowid (R.get_table ex_d "lexicons")] /\
+         wn_default_mode ex8_w = false.
+Proof. exact (@ex8_hypotheses). Qed.
+Print Assumptions C01_ex8_hypotheses.
+
+Theorem C01_ex8_by_theorems :
+  let T := conv ex8_d' in
+         Forall2
+           (fun (sn : Sense) (es : val * val) =>
+            exists ts : list Sense,
+              Sense_get_related T sn [S_ "antonym"] = Ok ts /\
+              map sn_id ts = dedup str_eqb (doc_sense_targets ex8_L (snd es) (S_ "antonym")))
+           (Wordnet_senses T ex8_w None None) (doc_senses ex8_L) /\
+         Forall2
+           (fun (sn : Sense) (es : val * val) =>
+            exists ts : list Synset,
+              Sense_get_related_synsets T sn [S_ "domain_topic"] = Ok ts /\
+              map ss_id ts = dedup str_eqb (doc_synset_targets ex8_L (snd es) (S_ "domain_topic")))
+           (Wordnet_senses T ex8_w None None) (doc_senses ex8_L) /\
+         map
+           (fun es : val * val =>
+            (doc_sense_targets ex8_L (snd es) (S_ "antonym"),
+             doc_synset_targets ex8_L (snd es) (S_ "domain_topic"))) (doc_senses ex8_L) =
+         [([S_ "w2-s1"; S_ "w1-s2"; S_ "w2-s1"], [S_ "y2"]); ([], []); ([S_ "w1-s1"], [])].
+Proof. exact (@ex8_by_theorems). Qed.
+Print Assumptions C01_ex8_by_theorems.
+
+Theorem C01_ex6_examples_by_theorem :
+  Sense_examples (conv ex6_d') ex6_sn0 =
+         Ok [Some (S_ "base example"); Some (S_ "extension example")] /\
+         Synset_examples (conv ex6_d') ex6_y0 =
+         Ok [Some (S_ "base synset example"); Some (S_ "extension synset example")] /\
+         sn_id ex6_sn0 = S_ "e1-s1" /\ ss_id ex6_y0 = S_ "y1".
+Proof. exact (@ex6_examples_by_theorem). Qed.
+Print Assumptions C01_ex6_examples_by_theorem.
+
